@@ -195,6 +195,9 @@ def expected_lists(sc, obs_ops):
                 exp[name] = list(v["iter"]) if f.get("rand") or f.get("randsz") else exp[name]
             if isinstance(v["iter"], str) or isinstance(v["index"], str) or not (v["len"] == v["size"] == len(v["iter"]) and v["index"] == v["iter"]):
                 problems.append((oi, "list %s: len() %s, size %s, iteration %s, indexing %s disagree" % (name, v["len"], v["size"], v["iter"], v["index"])))
+            elif v.get("contains_all") is False or (v.get("str") is not None and v["str"] != "[" + ", ".join(str(x) for x in v["iter"]) + "]"):
+                problems.append((oi, "list %s: indexing / iteration give %s, but membership of those values is %s and the printed form is %s"
+                                 % (name, v["iter"], v.get("contains_all"), v.get("str"))))
             elif v["iter"] != exp[name]:
                 problems.append((oi, "list %s exposes %s after %s, expected %s" % (name, v["iter"], k, exp[name])))
             if v["model_len"] != v["len"] and k != "randomize":
